@@ -45,11 +45,11 @@ Theorem reissue_after_disconnect : forall s p cp q cq i o l s',
   get_conn s q = Some cq -> c_interested cq = true -> c_unchoked cq = true ->
   valid_block s i o l = true -> getb (c_have cq) i = true -> getb (s_completed s) i = false ->
   (memN i (s_active s) = true \/ getb (s_wanted s) i = true) ->
-  mem_blk i o (s_fin s) = false -> holds cq i o = false ->
+  mem_blk i o (s_fin s) = false -> holds cq i o = false -> listed_any cq i o = false ->
   not_stalled s i o = not_stalled_in cp i o ->          (* p was the only un-stalled holder *)
   exists s'', accept s' (SRequest q i o l) = Some s''.
 Proof.
-  intros s p cp q cq i o l s' G A Hpq Gq Hi Hu V Hh Hc Hw Hf Ho Hn.
+  intros s p cp q cq i o l s' G A Hpq Gq Hi Hu V Hh Hc Hw Hf Ho Hla Hn.
   destruct (voided_by_disconnect _ _ _ _ G A) as (_ & Hoth & Hns & E1 & E2 & E3 & E4).
   assert (s' = set_conn s p None) by (cbn [accept] in A; rewrite G in A; inversion A; reflexivity). subst s'.
   eapply request_enabled with (c := cq); try eassumption.
@@ -137,14 +137,15 @@ Qed.
 Theorem eventually_requested_partial : forall s p c i o l,
   get_conn s p = Some c -> c_interested c = true -> c_unchoked c = true ->
   valid_block s i o l = true -> getb (c_have c) i = true -> getb (s_completed s) i = false ->
-  getb (s_wanted s) i = true -> mem_blk i o (s_fin s) = false -> holds c i o = false -> not_stalled s i o = 0 ->
+  getb (s_wanted s) i = true -> mem_blk i o (s_fin s) = false -> holds c i o = false -> listed_any c i o = false ->
+  not_stalled s i o = 0 ->
   exists s', accept s (SRequest p i o l) = Some s' /\ memN i (s_active s') = true.
 Proof.
-  intros s p c i o l G Hi Hu V Hh Hc Hw Hf Ho Hn.
+  intros s p c i o l G Hi Hu V Hh Hc Hw Hf Ho Hla Hn.
   assert (Hov : 0 < overlapped).
   { pose proof params_ok_now as P. unfold params_ok in P. repeat (apply andb_prop in P; destruct P as [P ?]).
     match goal with K : (0 <? overlapped) = true |- _ => apply N.ltb_lt in K; exact K end. }
-  destruct (request_enabled s p c i o l G Hi Hu V Hh Hc (or_intror Hw) Hf Ho Hn Hov) as (s' & A).
+  destruct (request_enabled s p c i o l G Hi Hu V Hh Hc (or_intror Hw) Hf Ho Hla Hn Hov) as (s' & A).
   exists s'. split; [assumption|]. cbn [accept] in A. rewrite G in A.
   match type of A with (if ?b then _ else _) = _ => destruct b end; [|discriminate]. inversion A. cbn.
   clear. induction (s_active s) as [|x r IH]; cbn.
